@@ -235,6 +235,9 @@ def long_cases(tier):
     grids = [((256, 6), (1280.0, 60.0))] if tier == "quick" else [((256, 6), (1280.0, 60.0)), ((6, 512), (45.0, 1024.0)), ((8192, 4), (40960.0, 40.0))]
     for g, off, prof in itertools.product(grids, (0.04, 1e-3, 1e-6, 0.5), ("most_aniso", "mostm_s")):
         yield {"grid": g[0], "dom": g[1], "offset_cells": off, "prof": prof}
+        if off in (0.04, 0.5):
+            # the same with a truncated (even) mode count: the retained spectrum still translates exactly under whole-cell moves
+            yield {"grid": g[0], "dom": g[1], "offset_cells": off, "prof": prof, "modes": [g[0][0] // 4 * 2 if g[0][0] > 16 else 4, g[0][1] // 4 * 2 if g[0][1] > 16 else 4]}
 
 
 def case_long(case):
@@ -248,7 +251,7 @@ def case_long(case):
     dx, dy = dom[0] / nx, dom[1] / ny
     z, prof = sl.build_profiles(case["prof"], 4)
     levels = [2, 4]
-    kw = dict(modes=(nx, ny), halo=0.0, precision="double")
+    kw = dict(modes=tuple(case.get("modes", (nx, ny))), halo=0.0, precision="double")
     off = case["offset_cells"]
     long_x = nx >= ny
     n_long = max(nx, ny)
